@@ -1902,6 +1902,28 @@ func resolveClosure(v ssa.Value, fr *Frame, d int) (*ssa.MakeClosure, *ssa.Funct
 			if gv := globalFieldOfLoad(x, -1); gv != nil {
 				return resolveClosure(gv, nil, d+1)
 			}
+			// a captured function variable (op := …; func() { op(x) }): the value stored in
+			// the creator's frame
+			if fv, ok := x.X.(*ssa.FreeVar); ok && fr != nil && fr.MC != nil {
+				for i, v := range fv.Parent().FreeVars {
+					if v != fv || i >= len(fr.MC.Bindings) {
+						continue
+					}
+					if a, ok := fr.MC.Bindings[i].(*ssa.Alloc); ok && a.Referrers() != nil {
+						var sv ssa.Value
+						n := 0
+						for _, r := range *a.Referrers() {
+							if st, ok := r.(*ssa.Store); ok && st.Addr == ssa.Value(a) {
+								sv = st.Val
+								n++
+							}
+						}
+						if n == 1 {
+							return resolveClosure(sv, fr.Parent, d+1)
+						}
+					}
+				}
+			}
 		}
 	case *ssa.Field:
 		if v2, fr2 := fieldOfValue(x.X, x.Field, fr, d+1); v2 != nil {
